@@ -169,7 +169,7 @@ func vfGenOKCmd(t *rapid.T, m *vfModel, cfg vfGenCfg) vfCmd {
 		case "stop":
 			c = vfCmd{Op: "stop", Svc: svc, Msg: rapid.SampledFrom(vfStopMsgs).Draw(t, "msg")}
 		case "pause":
-			c = vfCmd{Op: "pause", Svc: svc, MaxPauseMs: rapid.SampledFrom([]int{500, 2000, 30000}).Draw(t, "max-pause")}
+			c = vfCmd{Op: "pause", Svc: svc, MaxPauseMs: rapid.SampledFrom([]int{500, 2000, 30000, -1}).Draw(t, "max-pause")}
 		case "resume":
 			c = vfCmd{Op: "resume", Svc: svc}
 		case "remove":
